@@ -138,6 +138,39 @@ def r13_6(ck: Check, rule: str = "R13.6") -> None:
     ck.expect_count(rule, "set_coinstate call sites", n, 5)
 
 
+def r13_7(ck: Check, rule: str = "R13.7") -> None:
+    """the admission and eviction code catches ValidateTransactionError and nothing else: a validator that starts raising another class,
+    or an exception class moved in the hierarchy, turns a rejection into an error that escapes with the state half updated"""
+    import json
+    import os
+    from ..engine.report import VERIF_ROOT
+    from ..engine.walker import exc_ancestors, exc_class
+    ref = json.load(open(os.path.join(VERIF_ROOT, "reference", "raise_classes.json")))
+    n = 0
+    for q, want in sorted(ref["raises"].items()):
+        if not q.startswith("skepticoin.consensus.") or q not in ck.repo.functions:
+            continue
+        s = ck.summ(q, 0)
+        got = sorted({exc_class(e) for e in s.raises() if not e.chain})
+        n += 1
+        construct = "%s raises only %s" % (short(q), ", ".join(c.split(".")[-1] for c in want))
+        extra = [c for c in got if c not in want]
+        if extra:
+            ck.violated(rule, construct, "now also raises %s: handlers written for the recorded classes no longer see this rejection" % extra, s.fi.loc)
+        else:
+            ck.ok(rule, construct, "", s.fi.loc)
+    ck.expect_count(rule, "validators with recorded rejection classes", n, 12)
+    for cq, anc in sorted(ref["ancestors"].items()):
+        if cq not in ck.repo.classes:
+            continue
+        now = sorted(exc_ancestors(ck.repo, cq))
+        construct = "%s is a %s" % (short(cq), " < ".join(a.split(".")[-1] for a in anc if a not in ("BaseException", cq)))
+        if now == anc:
+            ck.ok(rule, construct, "", ck.repo.classes[cq].module.path)
+        else:
+            ck.violated(rule, construct, "its ancestors are now %s: `except` clauses elsewhere catch a different set of errors" % now, ck.repo.classes[cq].module.path)
+
+
 def r13_3(ck: Check) -> None:
     q = CM + ".set_coinstate"
     summ = ck.summ(q, 0)
@@ -238,6 +271,7 @@ def check(ck: Check) -> None:
     ck.run("R13.3", "eviction on every head change", lambda: r13_3(ck))
     ck.run("R13.4", "duplicate suppression before admission", lambda: r13_4(ck))
     ck.run("R13.6", "only bulk download serves an unvalidated state", lambda: r13_6(ck))
+    ck.run("R13.7", "rejections keep their exception classes", lambda: r13_7(ck))
     from .common import rule_eq
     ck.run("R13.5", "`transaction in pool` and reference clashes compare by content", lambda: (
         rule_eq(ck, "R13.5", "skepticoin.datatypes.Transaction", ["inputs", "outputs"], "pool membership compares whole transactions"),
